@@ -343,6 +343,14 @@ def observe(recipe, backend):
             pa = PARENT.get(str(t))
             if pa is not None and v["mem"].get(str(t)) == ["ok", True]:
                 accepted.setdefault(pa, []).append(str(t))
+            elif pa is not None and v["mem"].get(pa) == ["ok", True]:
+                # the traversal asks the RELATION object (not `in`): a test that answers differently there counts too
+                try:
+                    idrel = [r for r in t.relations if not r.inferential and str(r.related_type) == pa]
+                    if idrel and outcome(lambda: bool(idrel[0].is_relation(x, {}))) == ["ok", True]:
+                        accepted.setdefault(pa, []).append(str(t))
+                except Exception:  # noqa
+                    pass
             for r in t.relations:
                 if r.inferential and str(r.related_type) in v["mem"] and v["mem"].get(str(r.related_type)) == ["ok", True]:
                     if outcome(lambda: bool(r.is_relation(x, {}))) == ["ok", True]:
@@ -454,6 +462,27 @@ def observe(recipe, backend):
                     add("C06", "length:%s" % hop, "cast changed the length %d -> %d (path %s)" % (n_in, n_out, key))
             except Exception:
                 pass
+    # C15, detection clause, directly: for the typeset without one type of the detection path (and its identity descendants) the
+    # answer is the deepest type of B's detection path that remains
+    if d[0] == "ok":
+        pD = [str(t) for t in d[1][1]]
+        for tname in pD[1:]:
+            drop = {tname}
+            changed = True
+            while changed:
+                changed = False
+                for q, pa in PARENT.items():
+                    if pa in drop and q not in drop and q in order:
+                        drop.add(q)
+                        changed = True
+            a_names = [q for q in order if q not in drop]
+            tsa = typeset_for(sorted(a_names))
+            da = outcome(lambda: str(tsa.detect_type(x)))
+            deepest = [q for q in pD if q in a_names][-1]
+            if da[0] == "ok" and da[1] != deepest:
+                add("C15", "detect-not-projection:%s|%s" % (min(da[1], deepest), max(da[1], deepest)),
+                    "A = B minus %s detects %s; B's detection path is %s, whose deepest type in A is %s" % (sorted(drop), da[1], pD, deepest))
+                break
     # C15, directly: drop one type of the inference path (with its identity descendants) from the typeset — a parent-closed
     # sub-typeset A of B — and require that B's answer is reachable from A's answer along B's relations
     if inf[0] == "ok" and not has_overlap:
